@@ -9,7 +9,7 @@ from .symeval import InterpCore, Env, ReturnSignal, RaiseSignal, ContinueSignal,
 import ast
 from .symeval_ops import (PyObjV, OpsMixin, BoundBuiltin, DerivV, NTClassV, NTV, ExcV, ChunkListV, SJoin, SJoinItems,
                           strip_docstring_body)
-from .symeval_ext import ExtMixin, SetAccV
+from .symeval_ext import IterV, ExtMixin, SetAccV
 from .symeval_stmt import StmtMixin, ChunkItem
 
 
@@ -124,6 +124,10 @@ class Interp(StmtMixin, ExtMixin, OpsMixin, InterpCore):
             return v.seq
         if isinstance(v, SeqV) and v.kind in ("rows", "rowstrings"):
             return v
+        if isinstance(v, IterV):
+            rest = ListV(v.items[v.pos:], "list")      # iter(concrete list): what has not been taken yet, once
+            v.pos = len(v.items)
+            return rest
         if isinstance(v, InstV) and v.label is None and v.ci.lookup("__iter__") is not None and not self.is_listlike(v):
             return self.iterate_object(v, node)
         if self.is_listlike(v) and v.ci.lookup("__iter__") is None:
@@ -540,10 +544,30 @@ class Interp(StmtMixin, ExtMixin, OpsMixin, InterpCore):
         if ch is not None and st is ch["if_stmt"]:
             # run the emit statements once with the row buffer standing for ``per`` items
             marks = dict((id(b), (b, len(b.pieces))) for b in self.live_buffers())
+            lmarks = dict((id(l), (l, len(l.items), len(getattr(l, "tail", None) or []))) for l in self.live_lists(env))
             for s in ch["emit"]:
                 self.exec_stmt(s, env)
             emitted = [(b, b.pieces[n0:]) for (b, n0) in marks.values() if len(b.pieces) > n0]
-            if len(emitted) != 1:
+            grown = [(l, ni, nt) for (l, ni, nt) in lmarks.values()
+                     if len(l.items) > ni or len(getattr(l, "tail", None) or []) > nt]
+            if not emitted and len(grown) == 1:
+                # the row is collected (list.append / yield) instead of written: the list gains one string per full row
+                l, ni, nt = grown[0]
+                tail = getattr(l, "tail", None) or []
+                new = list(l.items[ni:])
+                for t in tail[nt:]:
+                    if isinstance(t, ListV) and not getattr(t, "tail", None):
+                        new.extend(t.items)
+                    else:
+                        self.err(st, "chunk idiom collects rows in a way that is not modelled")
+                if len(new) != 1 or not is_strlike(new[0]):
+                    self.err(st, "chunk idiom must collect exactly one string per row")
+                del l.items[ni:]
+                del tail[nt:]
+                ch["list_emit"] = l
+                ch["list_node"] = to_node(new[0])
+                return
+            if len(emitted) != 1 or grown:
                 self.err(st, "chunk idiom must emit to exactly one stream")
             b, new = emitted[0]
             row = self.chunk_row(ch, self.expand_row(ch, SCat(new), st), st)
@@ -556,6 +580,14 @@ class Interp(StmtMixin, ExtMixin, OpsMixin, InterpCore):
             b.pieces.append(placeholder)
             return
         StmtMixin.s_If(self, st, env)
+
+    def chunk_list_emit(self, chunk, var, lo, hi, seqv):
+        """after the loop of an append/flush idiom that collected its rows in a list: the list gains the row strings"""
+        l = chunk["list_emit"]
+        spec = {"per": chunk["per"], "elem": chunk["elem"], "var": var, "lo": lo, "hi": hi, "seqv": seqv, "flush": False,
+                "remainder": True}
+        tl = l.__dict__.setdefault("tail", [])
+        tl.append(SeqV("rowstrings", spec=spec, node=chunk["list_node"]))
 
     def expand_row(self, ch, node, st):
         """turn join-of-row / %-of-row into explicit per-item fields"""
